@@ -71,6 +71,12 @@ class P:
         self.ws()
         m = FOURCC.match(self.s, self.i)
         if m and (m.end() == len(self.s) or self.s[m.end()] in ",)}] "):
+            # the text in front of " / 0x" is the lossy UTF-8 rendering of the four bytes of the code: when it is, this IS a FourCC,
+            # whatever characters (quotes, brackets) it starts with
+            code = int(m.group(2), 16)
+            if code.to_bytes(4, "big").decode("utf-8", "replace") == m.group(1):
+                self.i = m.end()
+                return ("fourcc", code)
             if self.peek() in '[({"':
                 # ambiguous: the text of a FourCC may itself start with a bracket; prefer the structural reading when it parses
                 save = self.i
